@@ -27,6 +27,9 @@ var detLeaves = []detLeaf{
 	{"redistribute", "RedistributeRound2/B", "$>ZeroVerificationVector>verification_vector>data[0]>compressedBytes", "first entry of the AGGREGATED zero-sharing verification vector: identity by construction"},
 	{"redistribute", "RedistributeRound2/B", "$>PrevMSP>", "the previous access structure's MSP: public key material, fixed input"},
 	{"redistribute", "RedistributeRound2/B", "$>PrevVerificationVector>", "the previous verification vector: public key material, fixed input"},
+	// DKLs23 round 3: pk_i = (additive share of the key + pseudo-random zero share derived from the session's pairwise
+	// seeds) * G: a function of the dealt key material and the session context only (rounds.go, przs.SampleZeroShare).
+	{"dkls23bbot", "DKLS23SignBBOTRound3/B", "$>pk>", "public key of the party's session-rerandomised additive key share: key material and session context, no fresh randomness"},
 	// Lindell17 round 4: the Paillier ciphertext c3 is encoded together with the modulus it lives in (N, N^2): the PRIMARY's
 	// public key, fixed key material. The ciphertext value itself ($>c3>c>tag5017>v>value…) is not listed and must change.
 	{"lindell17", "Lindell17Round4/U", "$>c3>c>tag5017>n>", paillierModulus},
